@@ -250,10 +250,12 @@ def main(argv: List[str]) -> int:
         layout_sites = [s for s in SITES if s.endswith('_note')]
     items: Dict[int, Dict[str, Any]] = {}
     tid = 0
-    for p in texts:
+    for pi, p in enumerate(texts):
         t = p[1]
         lits = {'single': p[2], 'double': p[3], 'triple': p[4]}
-        for site in SITES:
+        # thorough: every text up to length 4 at every site; the 32 768 texts of length 5 at four sites each, by rotation
+        sites = SITES if len(t) < 5 else [SITES[(pi + k * 3) % len(SITES)] for k in range(4)]
+        for site in sites:
             for style in STYLES:
                 tid += 1
                 items[tid] = {'tid': tid, 't': t, 'site': site, 'route': 'authored', 'style': style, 'lit': lits[style]}
